@@ -3,12 +3,14 @@ package rules
 import (
 	"fmt"
 	"go/types"
+	"os"
 	"strings"
 
 	"golang.org/x/tools/go/ssa"
 
 	"sheensverif/internal/flow"
 	"sheensverif/internal/prog"
+	"sheensverif/internal/pta"
 	"sheensverif/internal/ssau"
 )
 
@@ -1310,4 +1312,54 @@ func c01AppendInLoopShares(c *Ctx, rule string, fns []*ssa.Function) {
 		bad = bad[:2]
 	}
 	c.R.Check(len(bad) == 0, rule, "match: records of alternatives do not share a backing array", "match/match.go", fmt.Sprintf("%d appends: in a loop, the base is the loop's own accumulator or a value of that iteration", n), strings.Join(bad, "; ")+": two iterations can be handed the same backing array, so what one alternative recorded is overwritten by the next")
+}
+
+// c15SetMachineInstallsAsGiven: sio's SetMachine is how a host restores a
+// machine from what was reported.  Apart from DefaultState's filling of an
+// empty node name or missing bindings, nothing SetMachine reaches writes into
+// the state it is given: an entry added to its bindings (parameter defaults,
+// say) makes the restored machine differ from the one that was reported.
+func c15SetMachineInstallsAsGiven(c *Ctx, rule string) {
+	sm := c.P.Func("sio", "Crew", "SetMachine")
+	if sm == nil || len(sm.Params) < 5 {
+		c.R.Break(rule + ": sio.(*Crew).SetMachine not found")
+		return
+	}
+	idx := -1
+	for i, p := range sm.Params {
+		if pt, ok := p.Type().(*types.Pointer); ok {
+			if n, isN := pt.Elem().(*types.Named); isN && n.Obj().Name() == "State" {
+				idx = i
+			}
+		}
+	}
+	if idx < 0 {
+		c.R.Break(rule + ": SetMachine has no *core.State parameter")
+		return
+	}
+	roots := map[int]pta.RootSpec{idx: {Name: "state", Levels: 4}}
+	a := pta.New(pta.Config{Prog: c.P, EnginePkgs: map[string]bool{"sio": true, "crew": true}, Entries: []*ssa.Function{sm}, Roots: map[*ssa.Function]map[int]pta.RootSpec{sm: roots}, External: stdExternal})
+	a.Run()
+	c.noteAnalysis(a)
+	n, total := 0, 0
+	for _, e := range a.Effects() {
+		if os.Getenv("VERIF_DEBUG") != "" {
+			fmt.Fprintf(os.Stderr, "SetMachine effect: %s %s\n", e.Key, e.Target.Name)
+		}
+		if !strings.HasPrefix(e.Target.Name, "root:state") {
+			continue
+		}
+		total++
+		if strings.HasSuffix(e.Key, ":call DefaultState") {
+			continue // DefaultState fills what is missing
+		}
+		if strings.HasSuffix(e.Key, `:map["timers"]=`) {
+			continue // the timers machine's state holds the crew's timers by design
+		}
+		n++
+		c.R.Violate(rule, fmt.Sprintf("%s|writes %s", e.Key, e.Target.Name), c.pos(e.Site.Instr), fmt.Sprintf("%s in %s writes %s: SetMachine changes the state it was given to install (path: %s), so a machine restored from what was reported is not the machine that was reported", e.Site.Kind, fname(e.Site.Fn), e.Target.Name, strings.Join(e.Origin, " -> ")))
+	}
+	if n == 0 {
+		c.R.Discharge(rule, "SetMachine: the given state is installed as it is", c.P.Pos(sm.Pos()), fmt.Sprintf("%d writes reach the given state, all of them DefaultState's filling of a missing node name or bindings, or the timers machine's reference to the crew's timers", total))
+	}
 }
